@@ -4,6 +4,7 @@ E2 explicit-state BFS over command histories on the real commands (two volumes),
 in lock-step; after EVERY transition trash-list is run and compared with the bag."""
 import hashlib
 import json
+import os
 import sys
 
 from .. import cell, scen, world
@@ -15,7 +16,7 @@ LEVEL = 'model_checking'
 TECHNIQUE = ('explicit-state breadth-first model checking of the implementation: states are canonical disk images, transitions execute the real '
              'trash-put / trash-restore / trash-rm / trash-empty on the state rebuilt from its snapshot; a bag reference model is stepped in lock-step and '
              'trash-list is compared with it after every transition')
-LEVEL_TEXT = ('every state reachable by at most d commands (quick d=5, thorough d=6) from the empty trash, and by at most 3 (thorough 5) commands from a second initial state in which one volume holds entries in both .Trash/uid and .Trash-uid, over a 17-command alphabet on two volumes is generated, deduplicated by a '
+LEVEL_TEXT = ('every state reachable by at most d commands (quick d=5, thorough d=6) from the empty trash, and by at most 3 (thorough 5) commands from a second initial state in which one volume holds entries in both .Trash/uid and .Trash-uid, and by at most 2 (thorough 4) from a third one whose .Trash-uid is a symbolic link, over a 17-command alphabet on two volumes is generated, deduplicated by a '
               'canonical hash of the whole disk image, and in every state the output of the real trash-list must equal the bag (multiset of date+path lines) and the pairs on disk must equal the bag')
 LEVEL_NOTE = ('exhaustive to the stated depth only; canonicalisation drops directory/.trashinfo mtimes and inode numbers, which no trash-cli code path reads (grep st_mtime|st_ino is empty); '
               'trusted: R3/R4/R5 reference models')
@@ -66,6 +67,11 @@ def initial(tier):
         dg = digest_of(_snap_of_nodes(nodes), '/mnt/v1/.Trash-0/files/old')
         out.append({'nodes': nodes, 'model': {'bag': [['/mnt/v1/p/old', '2024-02-20T12:00:00', dg, '/mnt/v1/.Trash-0']], 'day': 0},
                     'max_depth': 3 if tier != 'thorough' else 5})
+        # third initial state: the user's $topdir/.Trash-uid is a symbolic link to a directory of the same volume
+        # (trash-put trashes through it; every reader has to look there too)
+        W3 = scen.base_world(mounts=MOUNTS)
+        W3.dir('/home/u/w').dir('/mnt/v1/p').dir('/mnt/v1/.Trash-0real', mode=0o700).link('/mnt/v1/.Trash-0', '.Trash-0real')
+        out.append({'nodes': W3.spec()['nodes'], 'model': {'bag': [], 'day': 0}, 'max_depth': 2 if tier != 'thorough' else 4})
     return out
 
 
@@ -93,6 +99,7 @@ def disk_bag(snap):
     """the bag as read from disk with the reference reader R1 (pairs only)"""
     from ..ref import trashinfo as R1
     out, problems = [], []
+    linked = {os.path.normpath(os.path.join(os.path.dirname(p), v[1])): p for p, v in snap.items() if v[0] == 'l' and os.path.basename(p) == '.Trash-0'}
     for td, (infos, pays) in scen.trash_state(snap).items():
         for nm in pays:
             if nm + '.trashinfo' not in infos:
@@ -107,7 +114,7 @@ def disk_bag(snap):
             if not loc.startswith('/'):
                 top = td.rsplit('/', 1)[0] if '/.Trash-' in td else td.rsplit('/', 2)[0]
                 loc = top + '/' + loc
-            out.append([loc, p['date'].decode(), digest_of(snap, '%s/files/%s' % (td, nm)), td])
+            out.append([loc, p['date'].decode(), digest_of(snap, '%s/files/%s' % (td, nm)), linked.get(td, td)])
     return sorted(out), problems
 
 
